@@ -114,7 +114,8 @@ func NewHTTPReverseProxy(option HTTPReverseProxyOptions, vhostRouter *Routers) *
 			IdleConnTimeout:       60 * time.Second,
 			MaxIdleConnsPerHost:   5,
 			DialContext: func(ctx context.Context, network, addr string) (net.Conn, error) {
-				return rp.CreateConnection(ctx.Value(RouteInfoKey).(*RequestRouteInfo), true)
+				// Connect to the route selected for the request: the pool key above was built from it.
+				return rp.createConnectionByRoute(ctx.Value(RouteConfigKey).(*RouteConfig), ctx.Value(RouteInfoKey).(*RequestRouteInfo))
 			},
 			Proxy: func(req *http.Request) (*url.URL, error) {
 				// Use proxy mode if there is host in HTTP first request line.
@@ -200,6 +201,19 @@ func (rp *HTTPReverseProxy) CreateConnection(reqRouteInfo *RequestRouteInfo, byE
 		}
 	}
 	return nil, fmt.Errorf("%v: %s %s %s", ErrNoRouteFound, host, reqRouteInfo.URL, reqRouteInfo.HTTPUser)
+}
+
+// createConnectionByRoute creates a new connection to the route that was selected for the request.
+func (rp *HTTPReverseProxy) createConnectionByRoute(rc *RouteConfig, reqRouteInfo *RequestRouteInfo) (net.Conn, error) {
+	if rc != nil {
+		if rc.CreateConnByEndpointFn != nil {
+			return rc.CreateConnByEndpointFn(reqRouteInfo.Endpoint, reqRouteInfo.RemoteAddr)
+		}
+		if rc.CreateConnFn != nil {
+			return rc.CreateConnFn(reqRouteInfo.RemoteAddr)
+		}
+	}
+	return nil, fmt.Errorf("%v: %s %s %s", ErrNoRouteFound, reqRouteInfo.Host, reqRouteInfo.URL, reqRouteInfo.HTTPUser)
 }
 
 func (rp *HTTPReverseProxy) CheckAuth(domain, location, routeByHTTPUser, user, passwd string) bool {
